@@ -167,6 +167,16 @@ def run_binop(ctx, p):
                   lambda: '%s must raise ValueError, got %s' % (what(), repr(raised) if raised else core.short(dat(res), 200)))
         ctx.cell('mismatch', c, op, m, n)
         ctx.nontrivial('mismatch', c, op, m, n)
+        iop = {'mul': operator.imul, 'truediv': operator.itruediv, 'add': operator.iadd, 'sub': operator.isub}.get(op)
+        if iop is not None:       # the augmented form refuses as well, and leaves its left operand as it was
+            L2 = mk(c, A)
+            try:
+                iop(L2, R)
+                r2 = None
+            except Exception as e:
+                r2 = e
+            ctx.judge('mismatch', isinstance(r2, ValueError) and same(L2, mk(c, A)), dict(sig, kind='augmented_length_mismatch', got=type(r2).__name__ if r2 else 'returned'),
+                      lambda: '%s (augmented form) must raise ValueError and leave x unchanged, got %s; x now holds %s' % (what(), repr(r2) if r2 else 'a result', core.short(dat(L2), 200)))
         return
     if raised is not None:
         ctx.bad('binop', dict(sig, kind='raised', exc=type(raised).__name__), '%s raised %r' % (what(), raised))
@@ -194,6 +204,18 @@ def run_binop(ctx, p):
     ctx.cell('binop', c, op, m, n)
     if m * n > 1:
         ctx.nontrivial('binop', c, op, m, n)
+    # the augmented form (x op= y) combines the lengths in the same way and gives the same values, bit for bit
+    iop = {'mul': operator.imul, 'truediv': operator.itruediv, 'add': operator.iadd, 'sub': operator.isub}.get(op)
+    if iop is not None:
+        try:
+            L2 = mk(c, A)
+            res2 = iop(L2, L2 if p.get('sameobj') else R)
+            ok2 = same(res2, res)
+            got2 = core.short(dat(res2), 300)
+        except Exception as e:
+            ok2, got2 = False, 'raised %r' % e
+        ctx.judge('binop', ok2, dict(sig, kind='augmented_form_differs'),
+                  lambda: '%s: x %s= y gives %s, x %s y gives %s' % (what(), op, got2, op, core.short(dat(res), 300)))
 
 
 def run_pow(ctx, p):
@@ -209,6 +231,13 @@ def run_pow(ctx, p):
         return
     ok = it is not None and all(same(x, y) for x, y in zip(it, want))
     ctx.judge('binop', ok, dict(sig, kind='element_mismatch'), lambda: '%s(%d values) ** %d is not the per-element power' % (c, m, k))
+    try:
+        X2 = mk(c, A)
+        X2 **= k
+        ok2 = same(X2, res)
+    except Exception as e:
+        ok2 = False
+    ctx.judge('binop', ok2, dict(sig, kind='augmented_form_differs'), lambda: '%s(%d values): x **= %d differs from x ** %d' % (c, m, k, k))
     ctx.cell('binop', c, 'pow', m)
     if m > 1:
         ctx.nontrivial('pow', c, m, k)
@@ -371,7 +400,9 @@ def run_scalar(ctx, p):
     c, A, k, op = p['cls'], p['A'], p['k'], p['op']
     m = len(A)
     sig = dict(api='%s.scalar' % c, op=op, lens='1' if m == 1 else 'M', ktype=type(k).__name__)
-    f = {'mul': lambda x: x * k, 'rmul': lambda x: k * x, 'truediv': lambda x: x / k}[op]
+    f = {'mul': lambda x: x * k, 'rmul': lambda x: k * x, 'truediv': lambda x: x / k, 'add': lambda x: x + k, 'radd': lambda x: k + x,
+         'sub': lambda x: x - k, 'rsub': lambda x: k - x, 'imul': lambda x: operator.imul(x, k), 'itruediv': lambda x: operator.itruediv(x, k),
+         'iadd': lambda x: operator.iadd(x, k), 'isub': lambda x: operator.isub(x, k)}[op]
     try:
         singles = [f(mk(c, [a])) for a in A]
     except Exception as e:
@@ -399,9 +430,13 @@ def run_twexp(ctx, p):
     c, A, ths = p['cls'], p['A'], [float(t) for t in p['thetas']]
     m, n = len(A), len(ths)
     sig = dict(api='%s.exp' % c, lens='%sx%s' % ('1' if m == 1 else 'M', '1' if n == 1 else 'N'))
-    arg = ths[0] if n == 1 and (m > 1 or p.get('scalar', True)) else (np.array(ths) if p.get('form', 'array') == 'array' else list(ths))
+    arg = ths[0] if n == 1 and (m > 1 or p.get('scalar', True)) else (np.array(ths) if p.get('form', 'array') == 'array' else tuple(ths) if p.get('form') == 'tuple' else list(ths))
+    ukw = {}
+    if p.get('units') == 'deg':       # the same angles given in degrees, to the sequence call and to the single-valued calls alike
+        ukw = {'units': 'deg'}
+        sig['units'] = 'deg'
     try:
-        res = mk(c, A).exp(arg)
+        res = mk(c, A).exp(arg, **ukw)
         raised = None
     except Exception as e:
         res, raised = None, e
@@ -416,7 +451,7 @@ def run_twexp(ctx, p):
         return
     k = max(m, n)
     try:
-        singles = [mk(c, [A[i if m > 1 else 0]]).exp(ths[i if n > 1 else 0]) for i in range(k)]
+        singles = [mk(c, [A[i if m > 1 else 0]]).exp(ths[i if n > 1 else 0], **ukw) for i in range(k)]
     except Exception:
         ctx.ood('binop')
         return
@@ -495,7 +530,7 @@ def run(ctx):
                         drive(RUNNERS, ctx, 'point', dict(cls=c, A=elements(rng, c, m), pt=gen.vec(rng, d, 1e-2, 1e2),
                                                           prime=dict(cls=oc, A=elements(rng, oc, int(rng.integers(2, 4))), pt=gen.vec(rng, od, 1e-1, 1e1))))
     for c in CLS:
-        for op in ('mul', 'rmul', 'truediv'):
+        for op in ('mul', 'rmul', 'truediv', 'add', 'radd', 'sub', 'rsub', 'imul', 'itruediv', 'iadd', 'isub'):
             for m in range(1, 6):
                 i += 1
                 if not ctx.mine(i):
@@ -512,6 +547,8 @@ def run(ctx):
                 for _ in range(reps):
                     drive(RUNNERS, ctx, 'twexp', dict(cls=c, A=elements(rng, c, m), thetas=[float(x) for x in rng.uniform(-3, 3, size=n)],
                                                       scalar=bool(rng.integers(2)), form=['array', 'list'][rng.integers(2)]))
+                    drive(RUNNERS, ctx, 'twexp', dict(cls=c, A=elements(rng, c, m), thetas=[float(x) for x in rng.uniform(-170, 170, size=n)], units='deg',
+                                                      scalar=bool(rng.integers(2)), form=['array', 'list', 'tuple'][rng.integers(3)]))
     acc = ACC()
     for name, (classes, fn) in acc.items():
         if fn is None:
